@@ -1,8 +1,231 @@
-import MwVerif.Model.Archive
+import MwVerif.Lemmas.Archive.Stream
+import MwVerif.Lemmas.Archive.Index
 
+/-!
+# C14 — what is written into a collection archive is what is read back
+
+Theorems over `Model/Archive.lean`: the record stream (`revisions-1.txt`), the writer's
+de-duplication, the index the reader builds and the lookups by revision id, by title
+(newest revision, for every write order) and through `redirects.json`.
+-/
 namespace MwVerif.Archive
+open MwVerif.Qs
 
-/-- placeholder while the theorems are written. -/
-theorem c14_sep_length : sep.length = 12 := by decide
+/-- **C14 (stream round trip).**  For records whose meta line has no newline and whose text,
+with a newline in front, does not contain the separator (i.e. the text neither contains
+`"\n\x0c --page-- "` nor starts with `"\x0c --page-- "`), reading what was written gives back
+exactly the records, in order: an occurrence of the separator cannot straddle a record
+boundary because the separator has no border. -/
+theorem c14_stream_roundtrip (rs : List (Str × Str)) (h : ∀ r ∈ rs, BodyOk r.1 r.2) :
+    readStream (writeStream rs) = some rs := by
+  unfold readStream splitOn
+  rw [splitAux_writeStream rs [] h]
+  cases rs with
+  | nil => rfl
+  | cons r rs' =>
+    simp only [List.reverse_nil, List.drop_succ_cons, List.drop_zero]
+    exact mapM_splitLine_bodies (r :: rs') (fun x hx => (h x hx).1)
+
+/-! ### the writer's de-duplication -/
+
+/-- no two records with the same (present) revision id. -/
+def DistinctRevids (rs : List Rec) : Prop :=
+  rs.Pairwise (fun a b => a.revid = none ∨ a.revid ≠ b.revid)
+
+theorem writePages_sub : ∀ (seen : List Nat) (rs : List Rec) (r : Rec),
+    r ∈ writePages seen rs → r ∈ rs ∧ ∀ v, r.revid = some v → v ∉ seen
+  | _, [], r, h => by simp [writePages] at h
+  | seen, x :: xs, r, h => by
+    unfold writePages at h
+    cases hx : x.revid with
+    | none =>
+      simp only [hx] at h
+      rcases List.mem_cons.1 h with rfl | h
+      · exact ⟨by simp, fun v hv => by rw [hx] at hv; cases hv⟩
+      · obtain ⟨a, b⟩ := writePages_sub seen xs r h
+        exact ⟨by simp [a], b⟩
+    | some v =>
+      simp only [hx] at h
+      split at h
+      · obtain ⟨a, b⟩ := writePages_sub seen xs r h
+        exact ⟨by simp [a], b⟩
+      · rename_i hns
+        rcases List.mem_cons.1 h with rfl | h
+        · refine ⟨by simp, fun w hw => ?_⟩
+          rw [hx] at hw; injection hw with hw; subst hw
+          simpa using hns
+        · obtain ⟨a, b⟩ := writePages_sub (v :: seen) xs r h
+          exact ⟨by simp [a], fun w hw hm => b w hw (by simp [hm])⟩
+
+/-- **C14 (write side).**  `write_pages` writes every revision id at most once (the first
+time it sees it) and never invents a record. -/
+theorem c14_write_distinct : ∀ (seen : List Nat) (rs : List Rec), DistinctRevids (writePages seen rs)
+  | _, [] => by simp [writePages, DistinctRevids]
+  | seen, x :: xs => by
+    unfold writePages
+    cases hx : x.revid with
+    | none =>
+      simp only []
+      exact List.pairwise_cons.2 ⟨fun b _ => Or.inl hx, c14_write_distinct seen xs⟩
+    | some v =>
+      simp only []
+      split
+      · exact c14_write_distinct seen xs
+      · refine List.pairwise_cons.2 ⟨?_, c14_write_distinct (v :: seen) xs⟩
+        intro b hb
+        right
+        intro e
+        have := (writePages_sub (v :: seen) xs b hb).2 v (by rw [← e, hx])
+        simp at this
+
+theorem c14_write_subset (rs : List Rec) : ∀ r ∈ writePages [] rs, r ∈ rs :=
+  fun r h => (writePages_sub [] rs r h).1
+
+/-! ### lookups -/
+
+theorem distinct_unique {rs : List Rec} (hd : DistinctRevids rs) {a b : Rec} (ha : a ∈ rs) (hb : b ∈ rs)
+    {v : Nat} (hav : a.revid = some v) (hbv : b.revid = some v) : a = b := by
+  induction rs with
+  | nil => simp at ha
+  | cons x xs ih =>
+    obtain ⟨hx, hxs⟩ := List.pairwise_cons.1 hd
+    rcases List.mem_cons.1 ha with rfl | ha' <;> rcases List.mem_cons.1 hb with rfl | hb'
+    · rfl
+    · rcases hx b hb' with h | h
+      · rw [hav] at h; cases h
+      · exact absurd (by rw [hav, hbv]) h
+    · rcases hx a ha' with h | h
+      · rw [hbv] at h; cases h
+      · exact absurd (by rw [hav, hbv]) h
+    · exact ih hxs ha' hb'
+
+/-- **C14 (by revision id).**  A record written under a revision id is found under it. -/
+theorem c14_lookup_by_revid {rs : List Rec} (hd : DistinctRevids rs) {r : Rec} (hr : r ∈ rs) {v : Nat}
+    (hv : r.revid = some v) : lookupRevid (buildIndex rs) v = some r := by
+  obtain ⟨h1, h2, _, _, _⟩ := indexFirst_spec rs
+  unfold lookupRevid buildIndex
+  simp only []
+  have := h2 r hr v hv
+  cases hg : dictGet (indexFirst rs).byRevid v with
+  | none => rw [hg] at this; cases this
+  | some e =>
+    have hm := dictGet_some_mem hg
+    obtain ⟨a, b⟩ := h1 _ hm
+    have : e = r := distinct_unique hd a hr b hv
+    rw [this]
+
+/-- **C14 (by title: the newest revision, whatever the write order).**  If the title has no
+revision-less page, the page found under the title is a record of that title carrying the
+largest revision id stored for the title. -/
+theorem c14_lookup_by_title_newest {rs : List Rec} (hd : DistinctRevids rs) (t : Nat)
+    (hnr : ∀ r ∈ rs, r.title = t → r.revid ≠ none) :
+    (∀ r, lookupTitle (buildIndex rs) t = some r →
+      r ∈ rs ∧ r.title = t ∧ ∃ v, r.revid = some v ∧
+        ∀ r' ∈ rs, r'.title = t → ∀ v', r'.revid = some v' → v' ≤ v) ∧
+    ((∃ r' ∈ rs, r'.title = t) → (lookupTitle (buildIndex rs) t).isSome) := by
+  obtain ⟨h1, h2, _, h4, _⟩ := indexFirst_spec rs
+  have hnone : dictGet (indexFirst rs).byTitle t = none := by
+    cases hg : dictGet (indexFirst rs).byTitle t with
+    | none => rfl
+    | some r0 =>
+      obtain ⟨a, b, c⟩ := h4 _ (dictGet_some_mem hg)
+      exact absurd b (hnr r0 a c)
+  have hspec := fillTitles_spec (sortDesc (indexFirst rs).byRevid) (indexFirst rs).byTitle t
+  rw [hnone] at hspec
+  simp only [] at hspec
+  have hentry : ∀ r' ∈ rs, ∀ v', r'.revid = some v' → (v', r') ∈ sortDesc (indexFirst rs).byRevid := by
+    intro r' hr' v' hv'
+    have := h2 r' hr' v' hv'
+    cases hg : dictGet (indexFirst rs).byRevid v' with
+    | none => rw [hg] at this; cases this
+    | some e =>
+      have hm := dictGet_some_mem hg
+      obtain ⟨a, b⟩ := h1 _ hm
+      have : e = r' := distinct_unique hd a hr' b hv'
+      rw [this] at hm
+      exact sortDesc_mem.2 hm
+  constructor
+  · intro r hr
+    unfold lookupTitle buildIndex at hr
+    simp only [] at hr
+    rw [hspec] at hr
+    cases hf : (sortDesc (indexFirst rs).byRevid).find? (fun e => e.2.title = t) with
+    | none => rw [hf] at hr; cases hr
+    | some e =>
+      rw [hf] at hr
+      simp only [Option.map_some, Option.some.injEq] at hr
+      subst hr
+      have hmem := sortDesc_mem.1 (List.mem_of_find?_eq_some hf)
+      obtain ⟨a, b⟩ := h1 _ hmem
+      have htitle : e.2.title = t := by simpa using List.find?_some hf
+      refine ⟨a, htitle, e.1, b, ?_⟩
+      intro r' hr' ht' v' hv'
+      exact find_first_is_max (sortDesc_desc _) hf (v', r') (hentry r' hr' v' hv') ht'
+  · rintro ⟨r', hr', ht'⟩
+    cases hv : r'.revid with
+    | none => exact absurd hv (hnr r' hr' ht')
+    | some v' =>
+      have hin := hentry r' hr' v' hv
+      unfold lookupTitle buildIndex
+      simp only []
+      rw [hspec]
+      cases hf : (sortDesc (indexFirst rs).byRevid).find? (fun e => e.2.title = t) with
+      | some e => rfl
+      | none =>
+        have := List.find?_eq_none.1 hf (v', r') hin
+        simp [ht'] at this
+
+/-- **order independence**: two write orders of the same records give the same page under
+the title. -/
+theorem c14_title_lookup_perm {rs rs' : List Rec} (hp : rs.Perm rs') (hd : DistinctRevids rs)
+    (hd' : DistinctRevids rs') (t : Nat) (hnr : ∀ r ∈ rs, r.title = t → r.revid ≠ none) :
+    lookupTitle (buildIndex rs) t = lookupTitle (buildIndex rs') t := by
+  have hnr' : ∀ r ∈ rs', r.title = t → r.revid ≠ none := fun r hr => hnr r (hp.mem_iff.2 hr)
+  obtain ⟨a1, a2⟩ := c14_lookup_by_title_newest hd t hnr
+  obtain ⟨b1, b2⟩ := c14_lookup_by_title_newest hd' t hnr'
+  cases h1 : lookupTitle (buildIndex rs) t with
+  | none =>
+    cases h2 : lookupTitle (buildIndex rs') t with
+    | none => rfl
+    | some r' =>
+      obtain ⟨m, tt, _⟩ := b1 r' h2
+      have := a2 ⟨r', hp.mem_iff.2 m, tt⟩
+      rw [h1] at this; cases this
+  | some r =>
+    obtain ⟨m, tt, v, hv, hmax⟩ := a1 r h1
+    have := b2 ⟨r, hp.mem_iff.1 m, tt⟩
+    cases h2 : lookupTitle (buildIndex rs') t with
+    | none => rw [h2] at this; cases this
+    | some r' =>
+      obtain ⟨m', tt', v', hv', hmax'⟩ := b1 r' h2
+      have e1 : v' ≤ v := hmax r' (hp.mem_iff.2 m') tt' v' hv'
+      have e2 : v ≤ v' := hmax' r (hp.mem_iff.1 m) tt v hv
+      have : v = v' := Nat.le_antisymm e2 e1
+      subst this
+      rw [distinct_unique hd m (hp.mem_iff.2 m') hv hv']
+
+/-- **redirects recorded at write time resolve to their target page.** -/
+theorem c14_redirect_resolves (ix : Index) (redirects : List (Nat × Nat)) (name target : Nat) (p : Rec)
+    (hr : dictGet redirects name = some target) (hp : lookupTitle ix target = some p) :
+    getPageByName ix redirects name = some p := by
+  simp [getPageByName, hr, hp]
+
+/-! ### Non-vacuity -/
+
+/-- ordinary texts with `--page--`-like lines satisfy the hypothesis of the round trip. -/
+example : BodyOk ['{', 'x', '}'] ['a', '\n', ' ', '-', '-', 'p', 'a', 'g'] := by
+  refine ⟨by decide, ?_⟩
+  intro h
+  obtain ⟨p, q, hpq⟩ := h
+  have hl := congrArg List.length hpq
+  simp [sep] at hl
+  omega
+
+/-- revisions 5, 9, 7 of one title written in that order: the title finds revision 9. -/
+example :
+    let rs : List Rec := [⟨1, 0, some 5, 50⟩, ⟨1, 0, some 9, 90⟩, ⟨1, 0, some 7, 70⟩, ⟨2, 0, some 3, 30⟩]
+    lookupTitle (buildIndex rs) 1 = some ⟨1, 0, some 9, 90⟩ ∧
+    lookupRevid (buildIndex rs) 5 = some ⟨1, 0, some 5, 50⟩ ∧
+    writePages [] (rs ++ [⟨1, 0, some 5, 51⟩]) = rs := by decide
 
 end MwVerif.Archive
